@@ -2,10 +2,188 @@ package c18
 
 import (
 	"encoding/json"
+	"fmt"
+	"os"
+	"path/filepath"
+	"strings"
+
+	"github.com/php-any/origami/data"
 
 	"verif/harness/vh"
 )
 
-// error-location clause: filled in by loc.go (planted-fault programs); see notes.
-func runLoc(c *vh.Ctx)                             {}
-func runLocReplay(c *vh.Ctx, raw json.RawMessage) {}
+// Error-location clause of C18: programs with ONE planted fault at a known
+// line; the line origami reports for the parse error / uncaught runtime error
+// must be that line. No Lean model for this clause (oracle only): the expected
+// line is known by construction.
+
+type locCase struct {
+	Mode  string   `json:"mode"` // loc
+	Ext   string   `json:"ext"`  // zy | php
+	CRLF  bool     `json:"crlf"`
+	Lines []string `json:"lines"` // physical lines of the program (without line ends)
+	Fault int      `json:"fault"` // 1-based line of the planted fault
+	Kind  string   `json:"kind"`
+}
+
+type filler struct {
+	lines []string
+	php   bool // needs template mode
+}
+
+var fillers = []filler{
+	{lines: []string{"$v1 = 1;"}},
+	{lines: []string{"// a comment"}},
+	{lines: []string{"/* c */ $v2 = 2;"}},
+	{lines: []string{""}},
+	{lines: []string{"$s1 = \"two", "lines\";"}},
+	{lines: []string{"/* block", "   comment", "*/"}},
+	{lines: []string{"$h = <<<EOT", "hello $v1", "world", "EOT;"}},
+	{lines: []string{"$n = <<<'RAW'", "raw $x", "RAW;"}},
+	{lines: []string{"$u = 'ünï中'; // 注释"}},
+	{lines: []string{"function g1($p) {", "  return $p + 1;", "}"}},
+	{lines: []string{"if ($v1 > 0) {", "  $v3 = 3;", "} else {", "  $v3 = 4;", "}"}},
+	{lines: []string{"$arr = [", "  1,", "  2,", "];"}},
+	{lines: []string{"?>", "<b>html</b>", "<?php"}, php: true},
+}
+
+type fault struct {
+	kind  string
+	lines []string
+	at    int // which of its lines carries the fault (0-based)
+	parse bool
+}
+
+var faults = []fault{
+	{kind: "throw", lines: []string{"throw new Exception('boom');"}},
+	{kind: "undefined-fn", lines: []string{"undefined_fn_xyz(1);"}},
+	{kind: "throw-in-fn", lines: []string{"function ff1() {", "  throw new Exception('in fn');", "}", "ff1();"}, at: 1},
+	{kind: "div-zero", lines: []string{"$dz = 1 % 0;"}},
+	{kind: "undefined-method", lines: []string{"$ob = new stdClass();", "$ob->nope();"}, at: 1},
+	{kind: "parse:stray-paren", lines: []string{") ;"}, parse: true},
+	{kind: "parse:class-noname", lines: []string{"class { }"}, parse: true},
+	{kind: "parse:new-nothing", lines: []string{"$q = new ;"}, parse: true},
+	{kind: "parse:foreach-novar", lines: []string{"foreach ($arr as ) { }"}, parse: true},
+}
+
+func genLoc(r *vh.Rand) locCase {
+	lc := locCase{Mode: "loc", Ext: vh.Pick(r, []string{"zy", "php"}), CRLF: r.Chance(35)}
+	if lc.Ext == "php" {
+		lc.Lines = append(lc.Lines, "<?php")
+	}
+	add := func(n int) {
+		for i := 0; i < n; i++ {
+			f := vh.Pick(r, fillers)
+			if f.php && lc.Ext != "php" {
+				continue
+			}
+			for _, l := range f.lines {
+				// declarations must be unique within a program
+				lc.Lines = append(lc.Lines, strings.ReplaceAll(l, "g1(", fmt.Sprintf("g%d(", len(lc.Lines))))
+			}
+		}
+	}
+	add(r.Range(0, 7))
+	ft := vh.Pick(r, faults)
+	lc.Kind = ft.kind
+	lc.Fault = len(lc.Lines) + ft.at + 1
+	lc.Lines = append(lc.Lines, ft.lines...)
+	add(r.Range(1, 3))
+	lc.Lines = append(lc.Lines, "echo 'end';")
+	return lc
+}
+
+func (lc locCase) source() string {
+	sep := "\n"
+	if lc.CRLF {
+		sep = "\r\n"
+	}
+	return strings.Join(lc.Lines, sep) + sep
+}
+
+// reportedLine runs the program from a file and returns the 1-based line of the error location.
+func reportedLine(c *vh.Ctx, lc locCase, n int) (line int, what string) {
+	path := filepath.Join(c.Scratch, fmt.Sprintf("loc%d.%s", n, lc.Ext))
+	os.WriteFile(path, []byte(lc.source()), 0o644)
+	defer os.Remove(path)
+	env := vh.NewEnv()
+	var ctl data.Control
+	// an uncaught throwable at top level is handed to the VM's throw handler, not returned
+	env.VM.SetThrowControl(func(acl data.Control) {
+		if ctl == nil {
+			ctl = acl
+		}
+	})
+	func() {
+		defer func() {
+			if r := recover(); r != nil {
+				if a, ok := r.(data.Control); ok {
+					ctl = a
+				} else {
+					what = fmt.Sprintf("go-panic: %v", r)
+				}
+			}
+		}()
+		old := data.WriteOutput
+		data.WriteOutput = func(string) {}
+		defer func() { data.WriteOutput = old }()
+		p := env.Parser.Clone()
+		prog, acl := p.ParseFile(path)
+		if acl != nil {
+			ctl = acl
+			return
+		}
+		vars := p.GetVariables()
+		ctx := env.VM.CreateContext(vars)
+		if _, c2 := prog.GetValue(ctx); c2 != nil && ctl == nil {
+			ctl = c2
+		}
+	}()
+	if what != "" {
+		return -1, what
+	}
+	if ctl == nil {
+		return -1, "no error reported"
+	}
+	tv, ok := ctl.(*data.ThrowValue)
+	if !ok || tv.Error == nil || tv.Error.From == nil {
+		return -1, "error without a location: " + firstLineOf(ctl.AsString())
+	}
+	sl, _ := tv.Error.From.GetStartPosition()
+	return sl + 1, firstLineOf(ctl.AsString())
+}
+
+func firstLineOf(s string) string {
+	if i := strings.IndexByte(s, '\n'); i >= 0 {
+		return s[:i]
+	}
+	return s
+}
+
+func checkLoc(c *vh.Ctx, lc locCase, n int) {
+	got, what := reportedLine(c, lc, n)
+	key := fmt.Sprintf("%s|%v|%s", lc.Ext, lc.CRLF, strings.Join(lc.Lines, "\n"))
+	c.Eval("loc:"+key, len(lc.Lines) >= 4)
+	c.Hit("loc:" + lc.Kind)
+	c.SampleSome(map[string]any{"loc-kind": lc.Kind, "ext": lc.Ext, "crlf": lc.CRLF, "fault_line": lc.Fault, "reported": got}, 211)
+	if got != lc.Fault {
+		sig := "loc:" + lc.Kind
+		if got == -1 {
+			sig += ":none"
+		}
+		c.Violation(sig, fmt.Sprintf("fault %q planted on line %d of a .%s file (crlf=%v) is reported on line %d (%s)", lc.Kind, lc.Fault, lc.Ext, lc.CRLF, got, what), lc)
+	}
+}
+
+func runLoc(c *vh.Ctx) {
+	for i := 0; i < c.N(600, 12000); i++ {
+		checkLoc(c, genLoc(c.Rand), i)
+	}
+}
+
+func runLocReplay(c *vh.Ctx, raw json.RawMessage) {
+	var lc locCase
+	if json.Unmarshal(raw, &lc) == nil {
+		checkLoc(c, lc, 0)
+	}
+}
